@@ -157,7 +157,9 @@ pub fn event(id: usize, c: &ConeSpec, s: &[f64], z: &[f64], ds: &[f64], dz: &[f6
     if let Some(bu) = bat(c, &b0.unit_s, &b0.unit_z, ds, dz, 1.0) {
         if bu.primal_feasible && bu.dual_feasible && !bu.grad_dual.is_empty() {
             put("start_is_central", dist(&b0.unit_s, &bu.grad_dual.iter().map(|v| -v).collect::<Vec<_>>()), 1e-7 * norm(&b0.unit_s)); // (the exponential cone's start is a ten-digit constant)
-            put("start_mu_is_one", (dot(&b0.unit_s, &b0.unit_z) / degree - 1.0).abs(), 1e-9);
+            // (mu is formed with the barrier parameter the cone itself reports; that parameter is 3, or the number of exponents + 1)
+            put("start_mu_is_one", (dot(&b0.unit_s, &b0.unit_z) / (b0.degree as f64) - 1.0).abs(), 1e-9);
+            put("degree_is_barrier_parameter", (b0.degree as f64 - degree).abs(), 0.5);
         } else { put("start_is_central", f64::INFINITY, 0.0); }
     }
     json!({"ev": "NonsymCone", "id": id, "run": id, "cone": c.tag(), "cone_spec": serde_json::to_value(c).unwrap(), "three_d": three_d,
